@@ -159,7 +159,7 @@ def generate(seed, tier="quick", faults=True):
     ops = []
     nops = gen.randrange(6, 26)
     interface = gen.random() < 0.34
-    use_forks = tier == "thorough" and gen.random() < 0.05
+    use_forks = gen.random() < (0.05 if tier == "thorough" else 0.03)
 
     def add_spec(s, m):
         cs = canon(s)
@@ -286,7 +286,14 @@ def compare_result(res, exp, double):
     return "inexact" if inexact else None
 
 
+class _ForkResult(BaseException):
+    def __init__(self, out):
+        self.out = out
+
+
 class Run:
+    fork_w = None
+
     def __init__(self, record, run_dir):
         self.rec = record
         self.run_dir = os.path.realpath(run_dir)
@@ -668,6 +675,30 @@ class Run:
         self.bad_files.clear()
         self.log.add(k, "clear", sorted(self.names(f) for f in self.entry_files()))
 
+    def fork_continue(self):
+        """The rest of the history runs in a genuinely separate OS process (a
+        fork that carries the harness's bookkeeping along); this process only
+        waits for it and relays its result."""
+        from sim.harness import _recv
+
+        r, w = os.pipe()
+        pid = os.fork()
+        if pid == 0:
+            os.close(r)
+            self.fork_w = w
+            seed_tempfile((self.rec.get("seed", 0) + self.proc) & 0xFFFFFFFF)
+            return
+        os.close(w)
+        try:
+            out = _recv(r)
+        except EOFError:
+            out = None
+        os.close(r)
+        _, st = os.waitpid(pid, 0)
+        if out is None:
+            raise Violation("never-fatal", "process-died", f"the process after a restart died (wait status {st})", {})
+        raise _ForkResult(out)
+
     def measure_put(self):
         """How many hook points one storing request has on this tree (so that
         fault positions drawn as fractions land inside it)."""
@@ -703,6 +734,9 @@ class Run:
             elif kind == "series":
                 self.op_series(op, k)
             elif kind == "restart":
+                if op.get("fork"):
+                    self.fork_continue()
+                    self.probe("restart_in_new_os_process")
                 self.new_process()
                 self.log.add(k, "restart")
             elif kind == "clear":
@@ -712,12 +746,6 @@ class Run:
             else:
                 raise HarnessError("unknown op " + kind)
             self.ops_done += 1
-
-
-def _fork_segments(record, run_dir):
-    """Thorough tier: consecutive segments run in genuinely separate processes
-    (split at 'restart' ops with fork=true) sharing the directory."""
-    return None
 
 
 def execute(job):
@@ -737,12 +765,20 @@ def execute_run(job):
     out = {"status": "ok", "seed": rec.get("seed")}
     try:
         run.run()
+    except _ForkResult as fr:
+        run.disk.uninstall()
+        return fr.out
     except Violation as v:
         out["status"] = "violation"
         out["violation"] = v.as_dict()
     except HarnessError as e:
         out["status"] = "harness_error"
         out["error"] = str(e)
+    except BaseException:
+        if run.fork_w is None:
+            raise
+        out["status"] = "harness_error"
+        out["error"] = traceback.format_exc()[-3000:]
     finally:
         run.disk.uninstall()
     out["digest"] = run.log.digest()
@@ -755,6 +791,11 @@ def execute_run(job):
     out["pairs"] = sorted(run.pairs)
     out["hooks"] = dict(run.disk.counts)
     out["put_hooks"] = run.put_hooks
+    if run.fork_w is not None:
+        from sim.harness import _send
+
+        _send(run.fork_w, out)
+        os._exit(0)
     return out
 
 
